@@ -63,3 +63,6 @@ def standins(tier, seed):
                      'job': {'kind': 'inverse_symbolic', 'module': 'standins.jobs7', 'configs': [dict(c, per_size=per, sizes=[1, 2, 3] + ([4] if tier != 'quick' else []))], 'seed': seed + i}})
     jobs.append({'name': 'powers', 'bound': 'exponents 1..40 and ranges (1..n), n<=16, polynomial operand', 'job': {'kind': 'powers', 'module': 'standins.jobs5', 'limit': 40}})
     return jobs
+
+
+replay = K.replay_any
